@@ -145,7 +145,8 @@ def r09_1_order(chk):
     # each entry made of that logical file's own _make_multi_frame_data results
     from ..terms import SELF, A, K, contains, subterms, is_call, call_arg, pp
     glr = df.lookup("generate_logical_records")
-    gs = chk.summary(glr)
+    chk.consult(glr)
+    gs = chk.terms.inline(glr, 2, stop=lambda g: g.name in ("_make_multi_frame_data", "generator", "__init__"))
     lfs_t = A(SELF, "logical_files")
 
     def over_lfs(it):
@@ -282,9 +283,10 @@ def r09_5_origin(chk):
     do = lf.lookup("defining_origin")
     ds = chk.terms.inline(do, 3)
     vals = [t for _, t in return_alternatives(ds) if t != NONE]
-    ok = bool(vals) and all(t[0] == "sub" and t[2] == K(0) and contains(t[1], A(SELF, "_eflr_sets")) and contains(
-        t[1], lambda x: x[0] == "global" and x[1].endswith("OriginSet")) and not contains(
-        t[1], lambda x: x[0] == "attr" and x[2] == "physical_file") for t in vals)
+    from ..terms import first_of
+    ok = bool(vals) and all(first_of(t) is not None and contains(first_of(t), A(SELF, "_eflr_sets")) and contains(
+        first_of(t), lambda x: x[0] == "global" and x[1].endswith("OriginSet")) and not contains(
+        first_of(t), lambda x: x[0] == "attr" and x[2] == "physical_file") for t in vals)
     chk.require(ok, "R09.5", "defining-origin-first-of-own-sets",
                 f"the defining origin is `{[pp(t)[:60] for t in vals]}`, not the first object of the logical file's own "
                 f"ORIGIN sets", do.where)
